@@ -60,14 +60,18 @@ def evaluate(prog, inputs=None):
     """-> (list of workflow outputs, per-node results {name: {"axes": [...], "rows": [(coords, value)]}})"""
     inputs = prog["inputs"] if inputs is None else inputs
     res = {}
+    inner_dep = {}  # inner-split axis -> the axes of the upstream state whose lists it iterates over
     for nd in prog["nodes"]:
         fields = FIELDS[nd["kind"]]
         # ---- merged upstream state, in first-connection order
+        # (inputs received whole first, in field order; the upstream state of an input that is
+        # split over (inner split) comes after them, directly above the inner axis it feeds)
         ups = []
-        for f in fields:
-            s = nd["in"][f]
-            if s[0] in ("node", "splitnode") and res[s[1]]["axes"] and s[1] not in ups:
-                ups.append(s[1])
+        for want in ("node", "splitnode"):
+            for f in fields:
+                s = nd["in"][f]
+                if s[0] == want and res[s[1]]["axes"] and s[1] not in ups:
+                    ups.append(s[1])
         axes, rows = [], [dict()]
         for u in ups:
             U = res[u]
@@ -100,6 +104,7 @@ def evaluate(prog, inputs=None):
                     new_rows.append(dict(p, **{ax: i}))
             rows, axes = new_rows, axes + [ax]
             fld_axis[f] = ax
+            inner_dep[ax] = set(U["axes"])
         elif nd.get("split") is not None:
             tree = nd["split"]
             sfields = S.fields_of(tree)
@@ -163,6 +168,11 @@ def evaluate(prog, inputs=None):
                     raise Undefined(f"combiner {name} names no axis of this node")
                 caxes.extend(h for h in hit if h not in caxes)
             rem = [ax for ax in axes if ax not in caxes]
+            for ax in rem:
+                if inner_dep.get(ax, set()) & set(caxes):
+                    # the range of the remaining inner loop depends on the loop being combined: the
+                    # loops cannot be interchanged, a nested-loop evaluation does not define groups
+                    raise Undefined("combiner removes an axis that a remaining inner-split axis iterates under")
             groups = OrderedDict()
             if all(ax in parent_axes for ax in rem):
                 # nested-loop reading: every element of the surrounding (upstream) loops yields a
